@@ -761,7 +761,9 @@ class QvmCpu:
         self._bitwise(lambda a, b: ~(a ^ b))
 
     def _exec_errget(self):
-        self.push(CellType.INTEGER, self.last_trap.value)
+        # ERR is zero as long as no error has occurred
+        code = self.last_trap.value if self.last_trap else 0
+        self.push(CellType.INTEGER, code)
 
     def _exec_errhand(self, target):
         if target == 0 and self.error_handler_active:
